@@ -16,9 +16,32 @@
 #include "c20_wrap.c"
 #undef main
 
+static int fn2 = -1, fn2_open = 0;
+static void pfo(const char *tag, fout o) {        /* like pf, without the content (dates) */
+    int i, first = 1;
+    printf(" %s=/oob:", tag);
+    for (i = 0; i < GUARD; i++) if (o.a[i] != CANARY) { printf("%s%d", first ? "" : ",", i - GUARD); first = 0; }
+    for (i = 0; i < GUARD; i++) if (o.a[GUARD + o.len + i] != CANARY) { printf("%s%d", first ? "" : ",", o.len + i); first = 0; }
+    if (first) printf("-");
+}
+
 static int extra_op(const char *op) {
     cgint_f ier = -99;
     if (0) {}
+    /* a second file open at the same time; swap exchanges the handles */
+    OP("open2") { const char *m = toks[itok++]; static char p2[4200]; snprintf(p2, sizeof p2, "%s.B", path1); cg_set_file_type(backend);
+        ier = cg_open(p2, m[0] == 'w' ? CG_MODE_WRITE : m[0] == 'm' ? CG_MODE_MODIFY : CG_MODE_READ, &fn2); if (!ier) fn2_open = 1; IER(ier); NL; }
+    OP("close2") { ier = cg_close(fn2); if (!ier) fn2_open = 0; IER(ier); NL; }
+    OP("swap") { int t = fn; fn = fn2; fn2 = t; t = fn_open; fn_open = fn2_open; fn2_open = t; printf("swap"); NL; }
+    OP("where") { int f2 = 0, B = 0, depth = 0, num[CG_MAX_GOTO_DEPTH], i; char lab[CG_MAX_GOTO_DEPTH][33]; char *labs[CG_MAX_GOTO_DEPTH];
+        for (i = 0; i < CG_MAX_GOTO_DEPTH; i++) { labs[i] = lab[i]; lab[i][0] = 0; }
+        ier = cg_where(&f2, &B, &depth, labs, num);
+        IER(ier); if (!ier) { printf(" same=%d B=%d depth=%d", f2 == fn, B, depth); for (i = 0; i < depth; i++) printf(" %s:%d", labs[i], num[i]); } NL; }
+    OP("io_file_version") { fout o = fo(ti()), o2 = fo(ti()), o3 = fo(ti()); cgint_f num = cgio_n;
+        if (MODEF) FMNAME(cgio_file_version_f, CGIO_FILE_VERSION_F)(&num, FP(o), FP(o2), FP(o3), &ier, (size_t)o.len, (size_t)o2.len, (size_t)o3.len);
+        else { char a[CGIO_MAX_VERSION_LENGTH + 1], b[CGIO_MAX_VERSION_LENGTH + 1], c[CGIO_MAX_VERSION_LENGTH + 1];
+            ier = cgio_file_version(cgio_n, a, b, c); if (!ier) { fref(o, a); fref(o2, b); fref(o3, c); } }
+        IER(ier); pf("ver", o); pfo("cdate", o2); pfo("mdate", o3); NL; }
     OP("nbases") { int n = -1; ier = cg_nbases(fn, &n); IER(ier); if (!ier) printf(" n=%d", n); NL; }
     OP("base_read") { int B = ti(); fout o = fo(ti()); char c[33]; int cd = -1, pd = -1;
         ier = cg_base_read(fn, B, c, &cd, &pd); if (!ier) fref(o, c);
@@ -57,14 +80,14 @@ static int extra_op(const char *op) {
         ier = cg_geo_read(fn, B, F, G, c, &file, cad, &np); if (!ier) { fref(o, c); fref(o2, file ? file : ""); fref(o3, cad); if (file) cg_free(file); }
         IER(ier); if (!ier) printf(" np=%d", np); pf("name", o); pf("file", o2); pf("cad", o3); NL; }
     OP("gotov") { int B = ti(), k = ti(), i, ix[4] = {0}; const char *lab[4] = {"", "", "", ""};
-        for (i = 0; i < k && i < 4; i++) { fstr s = ts(); lab[i] = eqv(s, 32); ix[i] = ti(); }
+        for (i = 0; i < k && i < 4; i++) { fstr s = ts(); lab[i] = eqv(s, 8000); ix[i] = ti(); }
         if (MODEF) { if (k < 1) ier = cg_goto_fc1(fn, B, "end", 0);
             else { ier = cg_goto_fc1(fn, B, (char *)lab[0], ix[0]); for (i = 1; i < k && i < 4 && !ier; i++) ier = cg_gorel_fc1(fn, (char *)lab[i], ix[i]); } }
         else ier = k < 1 ? cg_goto(fn, B, "end") : k == 1 ? cg_goto(fn, B, lab[0], ix[0], "end") : k == 2 ? cg_goto(fn, B, lab[0], ix[0], lab[1], ix[1], "end") :
                    k == 3 ? cg_goto(fn, B, lab[0], ix[0], lab[1], ix[1], lab[2], ix[2], "end") : cg_goto(fn, B, lab[0], ix[0], lab[1], ix[1], lab[2], ix[2], lab[3], ix[3], "end");
         IER(ier); NL; }
     OP("gorelv") { int k = ti(), i, ix[4] = {0}; const char *lab[4] = {"", "", "", ""};
-        for (i = 0; i < k && i < 4; i++) { fstr s = ts(); lab[i] = eqv(s, 32); ix[i] = ti(); }
+        for (i = 0; i < k && i < 4; i++) { fstr s = ts(); lab[i] = eqv(s, 8000); ix[i] = ti(); }
         if (MODEF) { if (k < 1) ier = cg_gorel_fc1(fn, "end", 0);
             else { ier = 0; for (i = 0; i < k && i < 4 && !ier; i++) ier = cg_gorel_fc1(fn, (char *)lab[i], ix[i]); } }
         else ier = k < 1 ? cg_gorel(fn, "end") : k == 1 ? cg_gorel(fn, lab[0], ix[0], "end") : k == 2 ? cg_gorel(fn, lab[0], ix[0], lab[1], ix[1], "end") :
